@@ -294,7 +294,7 @@ class Machine:
         if self.nevents == 0:
             dt = 0          # Paraver time is relative to the first event
         self.now += dt
-        c = clock if clock is not None else BASE_CLOCK + self.now + th.loom.skew
+        c = clock if clock is not None else getattr(self.w, "base_clock", BASE_CLOCK) + self.now + th.loom.skew
         ev = tf.Ev(mcv, c, payload, jumbo)
         th.stream.events.append(ev)
         self.nevents += 1
